@@ -33,7 +33,7 @@ import (
 )
 
 func init() {
-	hx.Register(&hx.Stream{Name: "cont", Gen: genCont, Exec: execCont, Parallel: true, Timeout: 300 * time.Second})
+	hx.Register(&hx.Stream{Name: "cont", Gen: genCont, Exec: execCont, Parallel: true, Timeout: 600 * time.Second})
 }
 
 const contContract = `
@@ -723,7 +723,7 @@ func genCont(c *hx.Ctx) {
 		}
 		total := 40 + r.Intn(260)
 		if c.Thorough() {
-			total = 200 + r.Intn(2800)
+			total = 200 + r.Intn(1300)
 		}
 		ntx := 2 + r.Intn(7)
 		if total/ntx > 300 { // keep a generated transaction below the VM compiler's function-size limit
